@@ -150,6 +150,51 @@ def run(ctx):
         lp[1][2] == T.call("range", (T.call("len", (T.idx(T.idx(res, T.num(1)), T.num(1)),)),))
     ctx.check(x.key == want_key and ok_rng, "ALIGN", f"{g.qualname} / ALIGN / principal_stress[(centre_x[row], centre_y[column])] = eig(tensor(row, column))", ctx.where(g, x.node),
               "keyed by the reported grid centres of the same (row, column)", f"principal stress stored under {T.show(T.alpha(x.key))[:160]}")
+    ps_reset = [y for y in sg.stores("principal_stress") if y.base == SELF and not y.sub]
+    ctx.check(len(ps_reset) == 1 and ps_reset[0].value == ("dict", ()) and not ps_reset[0].conds() and ps_reset[0].node.lineno < x.node.lineno, "STATE",
+              f"{g.qualname} / STATE / principal_stress starts empty on every call", ctx.where(g),
+              "self.principal_stress = {} before the loop", "principal_stress is not reset by calculate_stress_tensor: entries of an earlier grid survive a later call")
+    st_store = [y for y in sg.stores("stress_tensor") if y.base == SELF and not y.sub]
+    ctx.check(len(st_store) == 1 and st_store[0].value == res, "ALIGN", f"{g.qualname} / ALIGN / tensors come from stress_tensor(self, coarsing, radius)", ctx.where(g),
+              "same frame, same grid, same radius", "the tensors decomposed are not stress_tensor(self, coarsing, radius)")
+
+    ctx.clause("the tensor is built from each cell's own pressure, area and centre and each interface's own tension and cells")
+    cd = repo.func("forsys.stress_tensor.get_cells_df")
+    ctx.touch(cd)
+    scd = sym.summarize(repo, cd.qualname)
+    fr = T.sym(cd.params[0])
+    vals = T.call(("m", "values"), (T.attr(fr, "cells"),))
+    b0 = ("bv", 0)
+    want_cols = {
+        "ids": T.attr(fr, "cells"),
+        "xcm": ("map", T.idx(T.call("forsys.cell.Cell.get_cm", (b0,)), T.num(0)), b0, vals, T.TRUE),
+        "ycm": ("map", T.idx(T.call("forsys.cell.Cell.get_cm", (b0,)), T.num(1)), b0, vals, T.TRUE),
+        "area": ("map", T.call("abs", (T.call("forsys.cell.Cell.get_area", (b0,)),)), b0, vals, T.TRUE),
+        "pressure": ("map", T.attr(b0, "pressure"), b0, vals, T.TRUE),
+    }
+    got_cols = {y.key[1]: y.value for y in scd.stores() if y.sub and y.key[0] == "str"}
+    for name, want in want_cols.items():
+        if name not in got_cols:
+            raise AnalysisError(f"get_cells_df: column '{name}' not found - re-bind the anchor")
+        rules.decide_equal(ctx, "FORM", f"{cd.qualname} / FORM / column '{name}'", ctx.where(cd), got_cols[name], want, f"column '{name}'")
+    bd = repo.func("forsys.stress_tensor.get_big_edges_df")
+    ctx.touch(bd)
+    sbd = sym.summarize(repo, bd.qualname)
+    fr = T.sym(bd.params[0])
+    bvals = T.call(("m", "values"), (T.attr(fr, "big_edges"),))
+    want_b = {
+        "stress": ("map", T.attr(b0, "tension"), b0, bvals, T.TRUE),
+        "cell1": ("map", T.idx(T.attr(b0, "own_cells"), T.num(0)), b0, bvals, T.TRUE),
+    }
+    got_b = {y.key[1]: y.value for y in sbd.stores() if y.sub and y.key[0] == "str"}
+    for name, want in want_b.items():
+        if name not in got_b:
+            raise AnalysisError(f"get_big_edges_df: column '{name}' not found - re-bind the anchor")
+        rules.decide_equal(ctx, "FORM", f"{bd.qualname} / FORM / column '{name}'", ctx.where(bd), got_b[name], want, f"column '{name}'")
+    c2 = got_b.get("cell2")
+    ok2 = c2 is not None and any(y == T.idx(T.attr(T.idx(("bv", c2[2]) if c2[0] == "loopres" else b0, T.num(1)), "own_cells"), T.num(1)) for y in T.subterms(c2))
+    ctx.check(ok2, "FORM", f"{bd.qualname} / FORM / column 'cell2' = second own cell (or -1)", ctx.where(bd), "own_cells[1]", "column 'cell2' is not the interface's second cell")
+
     # returned bins_centers == selection centres
     ret = s.ret()
     ok_c = False
@@ -166,6 +211,10 @@ def run(ctx):
 _P, _F = "forsys/stress_tensor.py", "forsys/frames.py"
 _KW = "{row:0{key_width}d}{column:0{key_width}d}"
 PINNED = [
+    ("pressure column falls back to the reference pressure", _P, "cell_pressures = [cell.pressure for _, cell in frame.cells.items()]", "cell_pressures = [cell.pressure or cell.gt_pressure for _, cell in frame.cells.items()]"),
+    ("signed areas in the cell table", _P, "cell_areas = [abs(cell.get_area()) for _, cell in frame.cells.items()]", "cell_areas = [cell.get_area() for _, cell in frame.cells.items()]"),
+    ("stress column from the reference tension", _P, "bedges_stress = [big_edge.tension for _, big_edge in frame.big_edges.items()]", "bedges_stress = [big_edge.gt for _, big_edge in frame.big_edges.items()]"),
+    ("principal_stress never reset", _F, "        self.principal_stress = {}\n\n        key_width", "        self.principal_stress = getattr(self, 'principal_stress', {})\n\n        key_width"),
     ("F3 reintroduced: plain concatenated key", _P, 'sigmas[f"' + _KW + '"] = np.array([[sigma_xx', 'sigmas[f"{row}{column}"] = np.array([[sigma_xx'),
     ("asymmetric off-diagonal", _P, "np.array([[sigma_xx, sigma_xy], [sigma_xy, sigma_yy]], dtype=float)", "np.array([[sigma_xx, sigma_xy], [-sigma_xy, sigma_yy]], dtype=float)"),
     ("pressure term with the wrong sign", _P, "pressure_area_term = - np.sum(", "pressure_area_term = np.sum("),
